@@ -31,7 +31,7 @@ def make_case(sid, ctxflags, texts):
     lines = ['init A %s %d' % (sid, ctxflags)]
     for t in texts:
         lines.append('parse_buf A ' + enc(t))
-    lines.append('dump A 0')
+    lines.append('dump A 32')
     return Case(lines)
 
 
